@@ -541,6 +541,11 @@ def run(ctx):
         shape = r.choice(["ragged", "ragged", "ragged", "flat", "matrix"])
         if shape == "flat":
             model = "".join(r.choice(alpha) for _ in range(r.choice([0, 1, 2, 5, 9])))
+            if r.random() < 0.012:
+                from bnpmon.util import boundary_length
+                L_ = boundary_length(r, 1 << 16)
+                model = "".join(np.array(list(alpha))[np.random.default_rng(case["seed"] % 2 ** 32).integers(0, len(alpha), size=L_)]) if L_ else ""
+                ctx.count("programs_with_a_long_row")
             obj = bnp.as_encoded_array(model, ENC[ename]) if ename != "ascii" else bnp.as_encoded_array(model)
             model = up(ename, model)
         elif shape == "matrix":
@@ -555,6 +560,12 @@ def run(ctx):
             n = r.choice([1, 1, 2, 3, 5])
             mode = r.random()
             rows = ["".join(r.choice(alpha) for _ in range(0 if mode < 0.1 else r.randint(0, 6))) for _ in range(n)]
+            if r.random() < 0.012:
+                # one long row, its length at or next to a block size (the list model is the same at any length)
+                from bnpmon.util import boundary_length
+                L_ = boundary_length(r, 1 << 16)
+                rows[r.randrange(n)] = "".join(np.array(list(alpha))[np.random.default_rng(case["seed"] % 2 ** 32).integers(0, len(alpha), size=L_)]) if L_ else ""
+                ctx.count("programs_with_a_long_row")
             obj = bnp.as_encoded_array(rows, ENC[ename]) if ename != "ascii" else bnp.as_encoded_array(rows)
             model = [up(ename, s) for s in rows]
         if r.random() < 0.3:
